@@ -212,20 +212,21 @@ inductive Err
   | altStackUnderflow
   deriving DecidableEq, Repr
 
-structure State where
+/-- the part of the machine state that opcodes other than IF/NOTIF/ELSE/ENDIF act on -/
+structure Core where
   stack : List Bytes       -- head = top
   alt : List Bytes
-  conds : List Bool        -- head = innermost; `true` = executing
   ops : Nat                -- executed non-push opcodes (Core's nOpCount)
-  peak : Nat               -- max over time of stack.length + alt.length (instrumentation)
-  deriving Repr
+  deriving Repr, DecidableEq
 
-def State.init (stack : List Bytes) : State := ⟨stack, [], [], 0, stack.length⟩
+structure State where
+  core : Core
+  conds : List Bool        -- head = innermost; `true` = executing
+  deriving Repr, DecidableEq
+
+def State.init (stack : List Bytes) : State := ⟨⟨stack, [], 0⟩, []⟩
 
 def State.executing (s : State) : Bool := s.conds.all id
-
-def bump (s : State) : State :=
-  { s with peak := max s.peak (s.stack.length + s.alt.length) }
 
 def LOCKTIME_THRESHOLD : Nat := 500000000
 def SEQ_DISABLE : Nat := 2147483648      -- 1 << 31
@@ -280,30 +281,69 @@ def multisigLoop (env : Env) : List Bytes → List Bytes → Except Err Bool
       if ok then multisigLoop env sigs keys else multisigLoop env (sig :: sigs) keys
 termination_by s k => s.length + k.length
 
-def countOp (env : Env) (s : State) (n : Nat) : Except Err State :=
+def countOp (env : Env) (s : Core) (n : Nat) : Except Err Core :=
   let ops := s.ops + n
   if env.flags.opLimit && !env.flags.tapscript && ops > 201 then .error .opCount
   else .ok { s with ops := ops }
 
-def pushElem (env : Env) (s : State) (b : Bytes) : Except Err State :=
+def pushElem (env : Env) (s : Core) (b : Bytes) : Except Err Core :=
   if env.flags.stackLimits && b.length > 520 then .error .pushSize
   else
-    let s' := bump { s with stack := b :: s.stack }
+    let s' := { s with stack := b :: s.stack }
     if env.flags.stackLimits && s'.stack.length + s'.alt.length > 1000 then .error .stackSize
     else .ok s'
 
-def hashOpOf : Opc → Option HashOp
-  | .sha256 => some .sha256 | .hash256 => some .hash256 | .ripemd160 => some .ripemd160
-  | .hash160 => some .hash160 | _ => none
+/-- CHECKMULTISIG / CHECKMULTISIGVERIFY -/
+def multisig (env : Env) (s : Core) (verify : Bool) : Except Err Core :=
+  if env.flags.tapscript then .error .disabledOpcode else
+  match s.stack with
+  | nB :: r =>
+    match numDecode env.flags.minimalNum 4 nB with
+    | none => .error .scriptNum
+    | some nI =>
+      if nI < 0 ∨ nI > 20 then .error .pubkeyCount else
+      let n := nI.toNat
+      match countOp env s n with
+      | .error e => .error e
+      | .ok s =>
+        if r.length < n + 1 then .error .stackUnderflow else
+        let keysTopFirst := r.take n
+        let r := r.drop n
+        match r with
+        | mB :: r =>
+          match numDecode env.flags.minimalNum 4 mB with
+          | none => .error .scriptNum
+          | some mI =>
+            if mI < 0 ∨ mI > nI then .error .sigCount else
+            let m := mI.toNat
+            if r.length < m + 1 then .error .stackUnderflow else
+            let sigsTopFirst := r.take m
+            let r := r.drop m
+            match r with
+            | dummy :: r =>
+              -- Core walks from the top of the stack: last key / last signature first
+              match multisigLoop env sigsTopFirst keysTopFirst with
+              | .error e => .error e
+              | .ok ok =>
+                if !ok && env.flags.nullFail && sigsTopFirst.any (fun x => !x.isEmpty) then
+                  .error .nullFail
+                else if env.flags.nullDummy && !dummy.isEmpty then .error .nullDummy
+                else if verify then
+                  (if ok then .ok { s with stack := r } else .error .verifyFailed)
+                else pushElem env { s with stack := r } (boolBytes ok)
+            | [] => .error .stackUnderflow
+        | [] => .error .stackUnderflow
+  | [] => .error .stackUnderflow
 
-/-- execute one opcode in an executing branch -/
-def execOpc (env : Env) (o : Opc) (s : State) : Except Err State :=
+/-- execute one non-conditional opcode (in an executing branch); the opcode itself has
+already been counted -/
+def execOpc (env : Env) (o : Opc) (s : Core) : Except Err Core :=
   match o, s.stack with
   | .dup, a :: r => pushElem env { s with stack := a :: r } a
   | .ifdup, a :: r => if castToBool a then pushElem env { s with stack := a :: r } a else .ok s
   | .swap, a :: b :: r => .ok { s with stack := b :: a :: r }
   | .size, a :: r => pushElem env { s with stack := a :: r } (numEncode a.length)
-  | .toalt, a :: r => .ok (bump { s with stack := r, alt := a :: s.alt })
+  | .toalt, a :: r => .ok { s with stack := r, alt := a :: s.alt }
   | .fromalt, _ =>
     match s.alt with
     | a :: ar => pushElem env { s with alt := ar } a
@@ -362,96 +402,76 @@ def execOpc (env : Env) (o : Opc) (s : State) : Except Err State :=
       else if checkSequence env v.toNat then .ok s else .error .unsatisfiedLocktime
   | .if_, _ | .notif, _ | .else_, _ | .endif, _ => .error .unbalancedConditional  -- handled by `step`
   | _, _ => .error .stackUnderflow
-where
-  multisig (env : Env) (s : State) (verify : Bool) : Except Err State :=
-    if env.flags.tapscript then .error .disabledOpcode else
-    match s.stack with
-    | nB :: r =>
-      match numDecode env.flags.minimalNum 4 nB with
-      | none => .error .scriptNum
-      | some nI =>
-        if nI < 0 ∨ nI > 20 then .error .pubkeyCount else
-        let n := nI.toNat
-        match countOp env s n with
-        | .error e => .error e
-        | .ok s =>
-          if r.length < n + 1 then .error .stackUnderflow else
-          let keysTopFirst := r.take n
-          let r := r.drop n
-          match r with
-          | mB :: r =>
-            match numDecode env.flags.minimalNum 4 mB with
-            | none => .error .scriptNum
-            | some mI =>
-              if mI < 0 ∨ mI > nI then .error .sigCount else
-              let m := mI.toNat
-              if r.length < m + 1 then .error .stackUnderflow else
-              let sigsTopFirst := r.take m
-              let r := r.drop m
-              match r with
-              | dummy :: r =>
-                -- Core walks from the top of the stack: last key / last signature first
-                match multisigLoop env sigsTopFirst keysTopFirst with
-                | .error e => .error e
-                | .ok ok =>
-                  if !ok && env.flags.nullFail && sigsTopFirst.any (fun x => !x.isEmpty) then
-                    .error .nullFail
-                  else if env.flags.nullDummy && !dummy.isEmpty then .error .nullDummy
-                  else if verify then
-                    (if ok then .ok { s with stack := r } else .error .verifyFailed)
-                  else pushElem env { s with stack := r } (boolBytes ok)
-              | [] => .error .stackUnderflow
-          | [] => .error .stackUnderflow
-    | [] => .error .stackUnderflow
+
+/-- the value a push element puts on the stack -/
+def Op.pushed? : Op → Option Bytes
+  | .small n => some (if n = 0 then [] else [UInt8.ofNat n])
+  | .push bs => some bs
+  | _ => none
+
+/-- IF / NOTIF in an executing branch: pop the condition (MINIMALIF), return the branch flag -/
+def condPop (env : Env) (notif : Bool) (s : Core) : Except Err (Bool × Core) :=
+  match s.stack with
+  | a :: r =>
+    if env.flags.minimalIf && !(a == [] || a == [1]) then .error .minimalIf
+    else .ok ((if notif then !castToBool a else castToBool a), { s with stack := r })
+  | [] => .error .unbalancedConditional
 
 /-- one script element, with the condition stack -/
 def step (env : Env) (s : State) (op : Op) : Except Err State :=
   let exec := s.executing
   match op with
   | .bad b => if exec then .error (.badOpcode b) else .ok s
-  | .small n => if exec then pushElem env s (if n = 0 then [] else [UInt8.ofNat n]) else .ok s
+  | .small n =>
+    if exec then (pushElem env s.core (if n = 0 then [] else [UInt8.ofNat n])).map (⟨·, s.conds⟩)
+    else .ok s
   | .push bs =>
     if env.flags.stackLimits && bs.length > 520 then .error .pushSize
-    else if exec then pushElem env s bs else .ok s
+    else if exec then (pushElem env s.core bs).map (⟨·, s.conds⟩) else .ok s
   | .code o =>
-    match countOp env s 1 with
+    match countOp env s.core 1 with
     | .error e => .error e
-    | .ok s =>
+    | .ok c =>
       match o with
       | .if_ | .notif =>
         if exec then
-          match s.stack with
-          | a :: r =>
-            if env.flags.minimalIf && !(a == [] || a == [1]) then .error .minimalIf
-            else
-              let v := castToBool a
-              .ok { s with stack := r, conds := (if o == .notif then !v else v) :: s.conds }
-          | [] => .error .unbalancedConditional
-        else .ok { s with conds := false :: s.conds }
+          match condPop env (o == .notif) c with
+          | .ok (v, c) => .ok ⟨c, v :: s.conds⟩
+          | .error e => .error e
+        else .ok ⟨c, false :: s.conds⟩
       | .else_ =>
         match s.conds with
-        | c :: cs => .ok { s with conds := (!c) :: cs }
+        | b :: cs => .ok ⟨c, (!b) :: cs⟩
         | [] => .error .unbalancedConditional
       | .endif =>
         match s.conds with
-        | _ :: cs => .ok { s with conds := cs }
+        | _ :: cs => .ok ⟨c, cs⟩
         | [] => .error .unbalancedConditional
-      | o => if exec then execOpc env o s else .ok s
+      | o => if exec then (execOpc env o c).map (⟨·, s.conds⟩) else .ok ⟨c, s.conds⟩
 
 def run (env : Env) (script : List Op) (s : State) : Except Err State :=
   script.foldlM (step env) s
+
+/-- instrumentation for C09: run and record the maximum of `stack + altstack` depth over all
+intermediate states (including the initial one) -/
+def runPeak (env : Env) : List Op → State → Nat → Except Err (State × Nat)
+  | [], s, pk => .ok (s, pk)
+  | op :: rest, s, pk =>
+    match step env s op with
+    | .error e => .error e
+    | .ok s' => runPeak env rest s' (max pk (s'.core.stack.length + s'.core.alt.length))
 
 /-- Run a script on an initial stack (top = head).  Success (CLEANSTACK form): no error,
 balanced conditionals, exactly one element left and it is true. -/
 def accepts (env : Env) (script : List Op) (stack : List Bytes) : Bool :=
   match run env script (State.init stack) with
-  | .ok s => s.conds.isEmpty && (match s.stack with | [a] => castToBool a | _ => false)
+  | .ok s => s.conds.isEmpty && (match s.core.stack with | [a] => castToBool a | _ => false)
   | .error _ => false
 
 /-- consensus-only success: top element true (no CLEANSTACK) -/
 def acceptsLoose (env : Env) (script : List Op) (stack : List Bytes) : Bool :=
   match run env script (State.init stack) with
-  | .ok s => s.conds.isEmpty && (match s.stack with | a :: _ => castToBool a | _ => false)
+  | .ok s => s.conds.isEmpty && (match s.core.stack with | a :: _ => castToBool a | _ => false)
   | .error _ => false
 
 end MsVerif.Script
